@@ -403,7 +403,14 @@ def build_rr(rr):
     return arr_data("return_result", rr)
 
 
-STDERR_TEXT = "warning: basis set is small\nnote: 2 near-linear dependencies"
+# program output as programs write it: leading blanks, a banner, a final newline — retained text is retained verbatim
+STDOUT_TEXT = "    -- banner --\n  I ran.\n"
+STDERR_TEXT = "warning: basis set is small\nnote: 2 near-linear dependencies\n"
+
+
+def native_content(i):
+    return f"  content {i}\n\n"
+
 EXTRAS_GIVEN = {"tag": "t1", "n": 3}
 
 
@@ -419,12 +426,12 @@ def build_A(spec, wfn_override=None):
         "protocols": {"wavefunction": spec["wp"], "stdout": spec["so"], "native_files": spec["nf"]},
     }
     if spec["stdout"]:
-        d["stdout"] = "I ran."
+        d["stdout"] = STDOUT_TEXT
     # fields no protocol governs: supplied on every case, must be retained as given whatever the protocols say
     d["stderr"] = STDERR_TEXT
     d["extras"] = dict(EXTRAS_GIVEN)
     if spec["files"] is not None:
-        d["native_files"] = {file_name(i): f"content {i}" for i in spec["files"]}
+        d["native_files"] = {file_name(i): native_content(i) for i in spec["files"]}
     if spec["wfn"] is not None:
         d["wavefunction"] = build_wfn(spec["wfn"]) if wfn_override is None else wfn_override
     return d
@@ -1286,6 +1293,14 @@ def check_A(ctx, out, spec, line, model_line):
         return
     # accepted: what no protocol governs is retained exactly as given (stdout, native files and the wavefunction are the only
     # things the protocols may drop)
+    kept_text = []
+    if r.stdout is not None and r.stdout != STDOUT_TEXT:
+        kept_text.append(f"stdout retained as {r.stdout!r}, supplied {STDOUT_TEXT!r}")
+    for k_, v_ in (r.native_files or {}).items():
+        if v_ is not None and str(k_).startswith("file") and v_ != native_content(int(str(k_)[4:])):
+            kept_text.append(f"native file {k_!r} retained as {v_!r}")
+    if kept_text:
+        viol(out, "oracle:retained_text_altered", line, "; ".join(kept_text)[:400], "verbatim", "a retained stdout / native file does not hold the supplied text verbatim")
     if r.stderr != STDERR_TEXT or dict(r.extras) != EXTRAS_GIVEN:
         viol(out, "oracle:ungoverned_field_dropped", line, f"stderr={r.stderr!r} extras={r.extras!r}", f"stderr={STDERR_TEXT!r} extras={EXTRAS_GIVEN!r}",
              f"a field that no protocol governs was altered or dropped (protocols: wavefunction={spec['wp']}, stdout={spec['so']}, native_files={spec['nf']})")
